@@ -1,5 +1,6 @@
 import SpoxModel.Model.Scope
 import SpoxModel.Model.Named
+import SpoxModel.Lemmas.Scope
 /-!
 # Naming model of `Builder.compile_graph` (C02)
 
@@ -43,9 +44,17 @@ inductive TraceOp where
   | reserveNode (n : String)
 deriving Repr
 
+/-- The state threaded through the compilation: the scope, the trace of naming calls, and — carried
+    along, erased at run time — the proof that the scope satisfies the invariant. Only `doUpdate`,
+    `reservePrefixed` and `reservePrefixedNode` build a new state, each from the lemma for the scope
+    operation it performs; so whatever `compileGraph` returns has a scope satisfying `SInv` *by
+    construction* (`Props/C02.lean: compile_names_unique`). -/
 structure St where
-  sc : Scope := {}
-  trace : List TraceOp := []     -- newest first
+  sc : Scope
+  trace : List TraceOp     -- newest first
+  inv : SInv sc
+
+def St.empty : St := { sc := {}, trace := [], inv := ⟨empty_inv, empty_inv⟩ }
 
 abbrev M := Except Err
 
@@ -59,28 +68,31 @@ def lookupOpt (st : St) : Option Nat → M String
   | some v => lookupVar st v
 
 def doUpdate (st : St) (pfx : String) (id : Nat) (opId : String) (outs : List OutVar) : M (String × St) :=
-  match st.sc.update pfx id opId outs with
-  | .ok (nm, sc') => .ok (nm, { sc := sc', trace := .update pfx id opId outs :: st.trace })
+  match h : st.sc.update pfx id opId outs with
+  | .ok (nm, sc') => .ok (nm, { sc := sc', trace := .update pfx id opId outs :: st.trace,
+                                inv := update_inv st.inv h })
   | .error e => .error e
 
 /-- `reserve_prefixed` of `_Inline.to_onnx` -/
 def reservePrefixed (st : St) (nodeName name : String) : M (String × St) :=
   if name = "" then .ok ("", st) else
   let base := nodeName ++ "__" ++ name
-  let (n, var1) := st.sc.var.maybeEnum base
-  match var1.reserve n with
-  | .ok var2 => .ok (n, { sc := { st.sc with var := var2 },
-                          trace := .reserveVar n :: .maybeEnumVar base :: st.trace })
+  let r := st.sc.var.maybeEnum base
+  match h : r.2.reserve r.1 with
+  | .ok var2 => .ok (r.1, { sc := { st.sc with var := var2 },
+                            trace := .reserveVar r.1 :: .maybeEnumVar base :: st.trace,
+                            inv := ⟨reserve_inv (maybeEnum_inv st.inv.1) h, st.inv.2⟩ })
   | .error e => .error e
 
 /-- the node-name counterpart (inlined node names are reserved in the node namespace) -/
 def reservePrefixedNode (st : St) (nodeName name : String) : M (String × St) :=
   if name = "" then .ok ("", st) else
   let base := nodeName ++ "__" ++ name
-  let (n, node1) := st.sc.node.maybeEnum base
-  match node1.reserve n with
-  | .ok node2 => .ok (n, { sc := { st.sc with node := node2 },
-                           trace := .reserveNode n :: .maybeEnumNode base :: st.trace })
+  let r := st.sc.node.maybeEnum base
+  match h : r.2.reserve r.1 with
+  | .ok node2 => .ok (r.1, { sc := { st.sc with node := node2 },
+                             trace := .reserveNode r.1 :: .maybeEnumNode base :: st.trace,
+                             inv := ⟨st.inv.1, reserve_inv (maybeEnum_inv st.inv.2) h⟩ })
   | .error e => .error e
 
 /-- renaming state of one `_Inline.to_onnx` call -/
@@ -254,6 +266,6 @@ def replay : Scope → List TraceOp → M Scope
     | .error e => .error e
 
 /-- `Builder.build_main`'s last step: `compile_graph(main, Scope())` -/
-def compile (g : EGraph) : M (NGraph × St) := compileGraph {} "" g
+def compile (g : EGraph) : M (NGraph × St) := compileGraph St.empty "" g
 
 end Naming
